@@ -486,6 +486,38 @@ func (p *Program) sliceBoundedByLimit(buf ssa.Value, at ssa.Instruction) (bool, 
 	if len(highs) == 0 {
 		return false, "no reslice found"
 	}
+	// a bound that is the parameter of a helper (b = resize(b, int(size))): judged on what the reading function
+	// passes for it
+	var expanded []ssa.Value
+	for _, h := range highs {
+		par, ok := p.stripConvAll(h).(*ssa.Parameter)
+		if !ok || par.Parent() == at.Parent() {
+			expanded = append(expanded, h)
+			continue
+		}
+		helper := par.Parent()
+		idx := -1
+		for i, fp := range helper.Params {
+			if fp == par {
+				idx = i
+			}
+		}
+		found := false
+		eachInstr(at.Parent(), func(in ssa.Instruction) {
+			if c, ok := in.(ssa.CallInstruction); ok && !c.Common().IsInvoke() && c.Common().StaticCallee() == helper && idx >= 0 && idx < len(c.Common().Args) {
+				// only calls whose result can still be the buffer at the read
+				if w, _ := (pathQuery{fn: at.Parent(), start: in, target: func(x ssa.Instruction) bool { return x == at }}).find(); w == nil {
+					return
+				}
+				expanded = append(expanded, c.Common().Args[idx])
+				found = true
+			}
+		})
+		if !found {
+			expanded = append(expanded, h)
+		}
+	}
+	highs = expanded
 	for _, h := range highs {
 		if _, ok := constInt(h); ok {
 			continue
